@@ -73,13 +73,23 @@ class C10(props.Prop):
                                   out_modes=('', ))
         toks = reftok.tokenize(spec['input'])
         scen = rng.choice(['faults', 'faults', 'faults', 'golden_slow',
-                           'match_absent', 'match_golden_timeout'])
+                           'match_absent', 'match_golden_timeout',
+                           'golden_alloc'])
         spec['scenario'] = scen
         slow = scen in ('golden_slow', 'match_golden_timeout')
         spec['model'] = fault_model(rng, toks, golden_slow=slow)
-        if slow or rng.random() < 0.5:
+        if scen == 'golden_alloc':
+            # the original input itself makes the command allocate without
+            # bound (somebody minimising a memory blow-up with --memout)
+            m = spec['model']
+            m['classes']['bugalloc'] = dict(m['classes']['alloc'])
+            for r_ in m['rules']:
+                if r_[1] == 'bug':
+                    r_[1] = 'bugalloc'
+            spec['opts'] += ['--memout', str(rng.choice([100, 300]))]
+        if slow or (rng.random() < 0.5 and scen != 'golden_alloc'):
             spec['opts'] += ['--timeout', str(rng.choice([0.5, 1.0, 2.5]))]
-        if rng.random() < 0.5:
+        if rng.random() < 0.5 and scen != 'golden_alloc':
             spec['opts'] += ['--memout', str(rng.choice([100, 2048]))]
         if scen == 'match_absent':
             spec['opts'] += [rng.choice(['--match-out', '--match-err']),
@@ -267,6 +277,14 @@ class C10(props.Prop):
             if not cfg['memout'] and mem is not None:
                 v.violate('wrong-mem-limit', 'C10:wrong-mem-limit',
                           'address-space limit set without --memout')
+                break
+        # the golden runs are limited as well (memory always, time if given)
+        for d in golden_inv:
+            mem = d['limits'].get(str(resource.RLIMIT_AS))
+            if cfg['memout'] and (mem is None or mem[0] != cfg['memout'] * 1024 * 1024):
+                v.violate('wrong-mem-limit', 'C10:wrong-mem-limit:golden-run',
+                          f'the golden run was started with address-space '
+                          f'limit {mem}, expected {cfg["memout"]} MiB')
                 break
         # (d) bounded total time
         if want_t is not None and golden_inv:
